@@ -302,6 +302,11 @@ def run_base_capa(
     opt_anomaly_starts = np.repeat(np.nan, n)
     starts = np.array([], dtype=int)
 
+    # Starts pruned by their saving at time t may only be dropped once an anomaly
+    # starting at t + 1 is long enough to replace them, i.e. min_segment_length - 1
+    # iterations later.
+    pending_prunes = []
+
     ts = np.arange(min_segment_length - 1, n)
     for t in ts:
         # Collective anomalies
@@ -332,7 +337,11 @@ def run_base_capa(
         penalty_sum = collective_alpha + collective_betas.sum()
         saving_too_low = candidate_savings + penalty_sum < opt_savings[t + 1]
         too_long_segment = starts < t - max_segment_length + 2
-        prune = saving_too_low | too_long_segment
+        pending_prunes.append(starts[saving_too_low])
+        prune_now = np.array([], dtype=int)
+        if len(pending_prunes) >= min_segment_length:
+            prune_now = pending_prunes.pop(0)
+        prune = np.isin(starts, prune_now) | too_long_segment
         starts = starts[~prune]
 
     collective_anomalies, point_anomalies = get_anomalies(opt_anomaly_starts)
